@@ -20,6 +20,7 @@ import (
 	"reflect"
 	"strings"
 	"testing"
+	"unsafe"
 )
 
 var ccSeen = map[string]bool{}
@@ -634,6 +635,7 @@ func ccDeepEq(a, b reflect.Value) bool {
 	}
 }
 
+var ccUseNumber = Config{EscapeHTML: true, SortMapKeys: true, CompactMarshaler: true, CopyString: true, ValidateString: true, UseNumber: true}.Froze()
 var ccUnicodeErrors = Config{EscapeHTML: true, SortMapKeys: true, CompactMarshaler: true, CopyString: true, ValidateString: true, UseUnicodeErrors: true}.Froze()
 
 // ccHoldsText: destinations that store the decoded text of a JSON string (so that a lone
@@ -678,45 +680,52 @@ func ccCompareUnmarshalPre(t *testing.T, id string, ctx string, ty reflect.Type,
 		if werr == nil && d.More() {
 			werr = fmt.Errorf("trailing data")
 		}
-		gerr = Config{EscapeHTML: true, SortMapKeys: true, CompactMarshaler: true, CopyString: true, ValidateString: true, UseNumber: true}.Froze().UnmarshalFromString(doc, got.Interface())
+		gerr = ccUseNumber.UnmarshalFromString(doc, got.Interface())
 	} else {
 		werr = json.Unmarshal([]byte(doc), want.Interface())
 		gerr = ConfigStd.UnmarshalFromString(doc, got.Interface())
 	}
-	if !useNumber && pre == "" {
-		// ownership (CopyString is part of ConfigStd): the result must not change when the
-		// caller overwrites the input buffer afterwards
+	if pre == "" {
+		// ownership (CopyString is part of both configurations): the result must not change
+		// when the caller overwrites the input buffer afterwards
+		cfg := ConfigStd
+		if useNumber {
+			cfg = ccUseNumber
+		}
 		buf := []byte(doc)
 		got2 := reflect.New(ty)
-		if err2 := ConfigStd.Unmarshal(buf, got2.Interface()); (err2 == nil) != (gerr == nil) {
-			ccFail(t, id, "[%s] %s: Unmarshal accepts=%v, UnmarshalFromString accepts=%v", ctx, doc, err2 == nil, gerr == nil)
+		// (a string that shares the caller's bytes, as UnmarshalFromString is used for zero-copy input)
+		if err2 := cfg.UnmarshalFromString(*(*string)(unsafe.Pointer(&buf)), got2.Interface()); (err2 == nil) != (gerr == nil) {
+			ccFail(t, "ownership:"+strings.TrimPrefix(strings.TrimPrefix(id, "decode:"), "sizes:"), "[%s] %s: accepts=%v from a shared buffer, accepts=%v from a string", ctx, doc, err2 == nil, gerr == nil)
 		} else if err2 == nil {
 			for i := range buf {
 				buf[i] = '#'
 			}
 			if !ccDeepEq(got.Elem(), got2.Elem()) {
 				gj, _ := json.Marshal(got2.Interface())
-				ccFail(t, id, "[%s] %s: the decoded value changes when the input buffer is overwritten: %.300s", ctx, doc, gj)
+				ccFail(t, "ownership:"+strings.TrimPrefix(strings.TrimPrefix(id, "decode:"), "sizes:"), "[%s] %s: the decoded value changes when the input buffer is overwritten: %.300s", ctx, doc, gj)
 			}
 		}
+	}
+	if !useNumber && pre == "" {
 		// UseUnicodeErrors: a lone surrogate escape is an error, nothing else changes
+		uid := "unicode-errors:" + strings.TrimPrefix(strings.TrimPrefix(id, "decode:"), "sizes:")
 		got3 := reflect.New(ty)
 		err3 := ccUnicodeErrors.UnmarshalFromString(doc, got3.Interface())
 		lone := strings.Contains(doc, `\ud800"`) || strings.Contains(doc, `\udc00x`)
+		// (the reference here is sonic without the option: the option changes nothing else)
 		switch {
-		case werr != nil || (lone && gerr == nil && ccHoldsText(ty)):
+		case lone && gerr == nil && ccHoldsText(ty):
 			if err3 == nil {
-				ccFail(t, id, "[%s] %s: accepted with UseUnicodeErrors (lone surrogate escape or an input encoding/json rejects)", ctx, doc)
+				ccFail(t, uid, "[%s] %s: accepted with UseUnicodeErrors although it holds a lone surrogate escape", ctx, doc)
 			}
 		case lone:
 			// destinations that never look at the text of the string: no expectation
-		default:
-			if err3 != nil {
-				ccFail(t, id, "[%s] %s: rejected with UseUnicodeErrors only -- %v", ctx, doc, err3)
-			} else if !ccDeepEq(want.Elem(), got3.Elem()) {
-				gj, _ := json.Marshal(got3.Interface())
-				ccFail(t, id, "[%s] %s: with UseUnicodeErrors sonic decodes it as %.300s", ctx, doc, gj)
-			}
+		case (err3 == nil) != (gerr == nil):
+			ccFail(t, uid, "[%s] %s: accepts=%v with UseUnicodeErrors, accepts=%v without -- %v", ctx, doc, err3 == nil, gerr == nil, err3)
+		case err3 == nil && !ccDeepEq(got.Elem(), got3.Elem()):
+			gj, _ := json.Marshal(got3.Interface())
+			ccFail(t, uid, "[%s] %s: with UseUnicodeErrors sonic decodes it as %.300s", ctx, doc, gj)
 		}
 	}
 	if (werr == nil) != (gerr == nil) {
